@@ -44,6 +44,15 @@ pub fn judge(ctx: &Ctx, text: &str, width: usize, count_case: bool) -> Option<St
         if let Some(df) = diff(&orig, &again) {
             return Err(("c10:definition-changed-by-formatting".into(), df, json!({ "formatted": f })));
         }
+        // ... and to the definition the SOURCE TEXT denotes (read by the reference recogniser), not
+        // only to what the parser made of it: a member the parser swallowed is not preserved
+        if let Bracket::MustAccept(want) = bracket(text) {
+            if want.duplicates().is_empty() {
+                if let Some(df) = diff(&by_kind(&want), &again) {
+                    return Err(("c10:formatted-text-differs-from-the-source-definition".into(), df, json!({ "formatted": f })));
+                }
+            }
+        }
         let f2 = d2.get_multiline(0, width);
         if f2 != f {
             return Err(("c10:not-idempotent".into(), "formatting the formatted text again gives a different text".into(), json!({"first": f, "second": f2})));
